@@ -415,12 +415,22 @@ def f_srv_fd_exhaustion(ctx):
             errs += 1
             if errs > 5:
                 break
+    # while no descriptor is left: a datagram of a NEW application (new session -> the server needs a new association, i.e. a socket)
+    sent_udp = False
+    if ctx.cfg["udp"]:
+        with T.UdpTarget() as tgt:
+            u = socket.socket(socket.AF_INET, socket.SOCK_DGRAM)
+            for _ in range(2):
+                u.sendto(T.socks5_udp_datagram(tgt.addr, b"sent while the server has no descriptor left"), ctx.client_addr())
+                time.sleep(0.15)
+            u.close()
+            sent_udp = True
     time.sleep(1.0)
     fds_at_peak = ctx.dep.fd_count("server")
     for s in socks:
         s.close()
     time.sleep(1.0)
-    return {"did": "server runs with RLIMIT_NOFILE=40; %d connections opened (accepts must fail), held 1 s, closed, 1 s pause" % len(socks),
+    return {"did": "server runs with RLIMIT_NOFILE=40; %d connections opened (accepts must fail)%s, held 1 s, closed, 1 s pause" % (len(socks), "; 2 datagrams of a new application meanwhile" if sent_udp else ""),
             "connect_errors": errs, "server_fd_count_at_peak": fds_at_peak, "server_fd_count_after": ctx.dep.fd_count("server")}
 
 
@@ -578,7 +588,7 @@ def suite_faults(tier, seed, only):
                 if T.wanted(name, only):
                     jobs.append(lambda name=name, cfg=cfg, seq=seq: run_scenario(name, cfg, seq, seed))
         # descriptor exhaustion: every configuration in the thorough tier, one plain and one TLS configuration in the quick tier
-        if tier == "thorough" or cfg["name"] in ("vmess.aes-128-gcm.tcp+udp", "trojan.-.tls+udp"):
+        if tier == "thorough" or cfg["name"] in ("vmess.aes-128-gcm.tcp+udp", "trojan.-.tls+udp", "shadowsocks.2022-blake3-aes-128-gcm.tcp+udp", "shadowsocks.aes-128-gcm.tcp+udp"):
             if cfg["server_tcp"]:
                 name = "faults/%s/srv_fd_exhaustion" % cfg["name"]
                 if T.wanted(name, only):
